@@ -21,7 +21,8 @@ enum Strategy : int {
   S_SYNC = 2,     // switch only at synchronisation events and operation boundaries
   S_WALK = 3,     // every yield point may switch (probability p), uniformly random target
   S_PCT = 4,      // PCT: random priorities, d-1 priority change points
-  S_EXPLICIT = 5  // follow an explicit switch list (replay)
+  S_EXPLICIT = 5, // follow an explicit switch list (replay)
+  S_LOCKSTEP = 6  // hand the baton on after every successful lock acquisition (lock-order search)
 };
 
 enum EvKind : int {
